@@ -285,4 +285,48 @@ theorem decodeVals_length (t : CipType) (hf : t.fixed = true) (hs : 0 < t.size) 
     have := chunks_length _ (by first | exact hs | decide) _ _ _ hcs
     simpa [CipType.size, Generated.tt_REAL_size, Generated.tt_LREAL_size] using this
 
+/-! ### inversion of the slice access -/
+
+theorem tagAccess_read_inv (tag : Tag) (B index n off : Nat) (w : List Val) (st : Nat) (vals : List Val)
+    (h : tagAccess tag B true index n off w = .read st vals) :
+    ∃ beg k, beg = index + off / tag.ty.size ∧ 1 ≤ k ∧ beg + k ≤ index + n ∧ index + n ≤ tag.len
+      ∧ vals = (tag.vals.drop beg).take k ∧ (st = 0 ∨ st = 6) ∧ (st = 0 ↔ beg + k = index + n) := by
+  unfold tagAccess at h
+  split at h
+  · simp at h
+  · rename_i x hx
+    have hx' := replyElements_offremains _ _ _ _ _ _ _ _ x hx
+    split at h
+    · simp at h
+    · simp only [↓reduceIte] at h
+      split at h
+      · simp at h
+      · simp only [Access.read.injEq] at h
+        obtain ⟨rfl, rfl⟩ := h
+        refine ⟨x.beg, x.end - x.beg, hx'.2.1, by omega, by omega, by omega, rfl, ?_, ?_⟩
+        · split <;> simp
+        · split
+          · rename_i he; simp; omega
+          · rename_i he; simp; omega
+
+theorem tagAccess_wrote_inv (tag : Tag) (B index n off : Nat) (w : List Val) (t' : Tag)
+    (h : tagAccess tag B false index n off w = .wrote t') :
+    ∃ beg, beg = index + off / tag.ty.size ∧ 1 ≤ w.length ∧ beg + w.length ≤ index + n ∧ index + n ≤ tag.len
+      ∧ t' = { tag with vals := if tag.scalar then w.take 1 else spliceAt tag.vals beg w } := by
+  unfold tagAccess at h
+  split at h
+  · simp at h
+  · rename_i x hx
+    have hx' := replyElements_offremains _ _ _ _ _ _ _ _ x hx
+    have hend : x.end = x.beg + w.length := by
+      unfold replyElements at hx
+      simp only [Bool.false_eq_true, false_or, ↓reduceIte] at hx
+      split at hx
+      · injection hx with hx; subst hx; simp only at *; omega
+      · simp at hx
+    split at h
+    · simp at h
+    · simp only [Bool.false_eq_true, ↓reduceIte, Access.wrote.injEq] at h
+      exact ⟨x.beg, hx'.2.1, by omega, by omega, by omega, h.symm⟩
+
 end Cpppo.Logix
